@@ -20,6 +20,12 @@ REPL = [
  ("  witnesses/             inputs that fail on the ORIGINAL tree (F01…F25), referenced from known-findings.txt", "  witnesses/             inputs that fail on the ORIGINAL tree (F01…F29), referenced from known-findings.txt"),
  ("None so far. Guard names reserved in `MANIFEST.hooks`: `kani` (set by cargo-kani)\nfor future `#[cfg(kani)]` harness modules. `/repo` carries only `fix:` commits.",
   "None: no source line of `/repo` is guarded by a flag. Both engines read `/repo/src` as\ntext and verify generated files under `/verif/.work`; `cfg(kani)` exists only inside the\ngenerated K files. `/repo` carries only `fix:` commits (F01-F29)."),
+ ("Thorough tier: quick + three re-runs per\nunit with other `smt.random_seed`s and a halved rlimit (a flaky obligation is\nreported undecided, not as a violation).",
+  "Thorough tier: quick + three re-runs per\nunit that verified, with other `smt.random_seed`s and a halved rlimit. The verdict is the one of the reference\nrun (same text, same seed, same limit: deterministic); the re-runs measure the margin of the proofs, are printed\n(`NOTE: … is not stable under …`) and recorded in the evidence (`stability_runs`), and do not change the verdict\n(a proof that needs more than half of the budget is still a proof; a failed re-run has no counterexample). An\nearlier version turned such a unit into *undecided* (exit 2), which made the thorough check of the unchanged tree\nfail for two units that need 20-40 rlimit units."),
+ ("`optional=1` on a `//@ fn` makes the absence of a function that a repair\n  introduced a non-event (the callers' contracts then decide).",
+  "`optional=1` on a `//@ fn` or `//@ region` makes the absence of a function or statement that a repair\n  introduced a non-event (the callers' contracts then decide). Insert directives: `//@before? …` is skipped when its\n  anchor is absent (ghost bookkeeping attached to a statement a tree need not have; the obligation that reads the\n  ghost decides what the absence means); `//@before#2/3 <<<a>>>` names the second of exactly three occurrences of a\n  short anchor, so that a proof step is not tied to the order of the neighbouring statements."),
+ ("inputs that fail on the ORIGINAL tree (F01…F29), referenced from known-findings.txt", "inputs that fail on the ORIGINAL tree (F01…F37), referenced from known-findings.txt"),
+ ("`/repo` carries only `fix:` commits (F01-F29).", "`/repo` carries only `fix:` commits (F01-F37)."),
 ]
 for x, y in REPL:
     if y in mid:
